@@ -179,13 +179,67 @@ def process_chunk(args):
     return res
 
 
+def run_reuse(ctx):
+    """several writes on one connection through ONE re-used frame object (send_frame's own docstring does that), with fin /
+    opcode / data reassigned in between and equal-length chunks, and frames the caller rendered itself before sending:
+    every write is one fresh frame carrying the requested FIN and opcode, masked with the next key of the connection's source."""
+    import rx
+    rnd = ctx.rng("reuse")
+    sessions, meta = [], []
+    for i in range(200 if ctx.thorough() else 40):
+        k = rnd.randint(2, 6)
+        clen = rnd.choice([0, 1, 2, 5, 125, 126, 300])
+        msg = rx.payload(rnd, clen * k, "bin")
+        first_op = rnd.choice([1, 2]) if clen == 0 or max(msg, default=0) < 0x80 else 2
+        shape = rnd.choice(["fragments", "resend", "mixed"])
+        reqs = []
+        for j in range(k):
+            if shape == "fragments":
+                reqs.append((1 if j == k - 1 else 0, first_op if j == 0 else 0, msg[j * clen:(j + 1) * clen]))
+            elif shape == "resend":
+                reqs.append((1, first_op, msg[:clen]))
+            else:
+                reqs.append((rnd.randint(0, 1), rnd.choice([0, 2, 9, 10] if clen <= 125 else [0, 2]), msg[j * clen:(j + 1) * clen]))
+        kind = rnd.choice(["sendfo", "sendfo", "sendfp"])
+        keys = [bytes([0x41 + j, 0x61 + i % 26, 0x30 + j, 0x7a - j]) for j in range(k)]
+        ops = [f"{kind if not (kind == 'sendfp' and j % 2) else 'sendfo'}:{fin}:{op}:{d.hex() or '-'}" for j, (fin, op, d) in enumerate(reqs)]
+        sessions.append(({"keys": list(keys)}, [], ops))
+        meta.append((reqs, keys, shape, kind))
+    lines, impls, wires = [], [], []
+    for cfg, ev, ops in sessions:
+        out, ws, sock = session.run_impl(cfg, ev, ops, keymode="script")
+        lines.append(session.line(cfg, ev, ops))
+        impls.append(out)
+        wires.append(bytes(sock.sent))
+    mo = common.run_driver_parallel(lines)
+    common.compare_streams(ctx, "session:frame-object-reuse", lines, mo, impls)
+    for (reqs, keys, shape, kind), wire, line, impl, (dec, rest) in zip(meta, wires, lines, impls, rx.spec_decode_all(wires)):
+        ctx.case(key=line, nontrivial=True, cls=f"reuse:{shape}:{kind}:n={len(reqs)}:len={len(reqs[0][2])}")
+        inp = {"op": line[:300], "shape": shape, "how": kind}
+        want = [f"{fin}:000:{op}:1:{key.hex()}" for (fin, op, d), key in zip(reqs, keys)]
+        got = [":".join(d.split(":", 6)[:5]) for d in dec]
+        gotp = [d.split(":", 6)[6] for d in dec]
+        wantp = [common.summarize(d) for _, _, d in reqs]
+        if rest != 0 or len(dec) != len(reqs):
+            ctx.violate("one-wellformed-masked-frame", "reused-frame-object-wire-not-whole-frames", inp, f"{len(reqs)} frames", f"{len(dec)} frames rest={rest}", size=len(reqs))
+        elif [g.rsplit(":", 1)[0] for g in got] != [w.rsplit(":", 1)[0] for w in want]:
+            ctx.violate("one-wellformed-masked-frame", "reused-frame-object-wrong-fin-or-opcode", inp, want, got, size=len(reqs))
+        elif gotp != wantp:
+            ctx.violate("one-wellformed-masked-frame", "reused-frame-object-wrong-payload", inp, wantp[:4], gotp[:4], size=len(reqs))
+        elif got != want:
+            ctx.violate("key-drawn-once-per-frame", "reused-frame-object-key-not-the-next-drawn", inp, want, got, size=len(reqs))
+    ctx.traces_vs_impl += len(lines)
+
+
 def run(ctx):
     ctx.rule = ("one send per case: payload length (quick: 0..300, 65400..65700, 40 random; thorough: every 0..70000 + "
                 "sampled to 2^22) x opcode (all six when <=125 bytes) x FIN x key source (set_mask_key bytes / ASCII str / "
                 "default os.urandom, recorded) x bytes|bytearray x trace on/off x api (send, ping, pong, send_frame); "
                 "str payloads; close()/send_close(); short-write patterns. Every case: model vs implementation through wire "
                 "summaries (length, CRC-32 of the whole wire, first/last 32 bytes) + independent Python encoder; the Lean Spec "
-                "decoder reads the whole real wire for lengths <= 300, 65400..65700 and a 3% sample. non-trivial = length > 0")
+                "decoder reads the whole real wire for lengths <= 300, 65400..65700 and a 3% sample; sequences of 2-6 writes through ONE "
+                "re-used frame object (fin/opcode/data reassigned, equal-length chunks, plain re-sends) and frames rendered by the "
+                "caller before send_frame(). non-trivial = length > 0")
     cases = build_cases(ctx)
     # text (str) payloads, close frames
     for i, t in enumerate(TEXTS):
@@ -234,6 +288,7 @@ def run(ctx):
         for clause, cause, inp, exp, obs, size_ in res["violate"]:
             ctx.violate(clause, cause, inp, exp, obs, size=size_)
         ctx.traces_vs_impl += len(res["cases"])
+    run_reuse(ctx)
 
 
 def _to_str(b):
